@@ -1188,6 +1188,14 @@ class Machine:
                 idx = self.prog.labels.get(name)
                 if idx is not None:
                     cands.append((name, a, idx))
+            exact = [c for c in cands if c[1].eq(tgt)]
+            if exact:
+                s.ip = exact[0][2]        # the target is syntactically one label's address
+                return []
+            # distinct labels have distinct addresses
+            if len(cands) > 1 and not getattr(self, "_labels_distinct", False):
+                self.assumes.append(z3.Distinct(*[c[1] for c in cands]))
+                self._labels_distinct = True
             forks = []
             notany = []
             for name, a, idx in cands:
